@@ -3,6 +3,7 @@ package datamodel
 import (
 	"errors"
 	"fmt"
+	"math"
 )
 
 // Copy does an explicit shallow copy of a Node's data into a NodeAssembler.
@@ -37,6 +38,12 @@ func Copy(n Node, na NodeAssembler) error {
 		}
 		return na.AssignBool(v)
 	case Kind_Int:
+		if un, ok := n.(UintNode); ok {
+			// values above MaxInt64 have no AssignInt form; hand over the (immutable) node itself
+			if uv, err := un.AsUint(); err == nil && uv > math.MaxInt64 {
+				return na.AssignNode(n)
+			}
+		}
 		v, err := n.AsInt()
 		if err != nil {
 			return fmt.Errorf("node violated contract: promised to be %v kind, but AsInt method returned %w", n.Kind(), err)
